@@ -1043,6 +1043,32 @@ def call_asyncio(it, name, args, kwargs):
                  "still pending; without timeout all are done")
         tasks = it.iterate_concrete(args[0])
         timeout = kwargs.get("timeout")
+        rw = kwargs.get("return_when")
+        first = rw is not None and "FIRST_COMPLETED" in repr(rw)
+        if rw is not None and not first and "ALL_COMPLETED" not in repr(rw):
+            raise Unsupported(f"asyncio.wait(return_when={rw!r})")
+
+        def run_wait_first():
+            # FIRST_COMPLETED: returns as soon as at least one task is done - any non-empty subset of the unfinished
+            # tasks may have finished by then; if none ever finishes the call does not return (path pruned)
+            done, pending = [], []
+            for t in tasks:
+                h = it.ctx.deref(t)
+                d = it.truth(h.fields["_done"])
+                if d is True or (d is not False and it.ctx.branch(d, "task already done")):
+                    done.append(t)
+                elif it.ctx.choose("task is among the first to finish"):
+                    finish_task(it, t)
+                    done.append(t)
+                else:
+                    pending.append(t)
+            if not done:
+                from .interp import Infeasible
+                raise Infeasible()
+            return (it.ctx.alloc(HSet(done)), it.ctx.alloc(HSet(pending)))
+        if first:
+            _use(it, "model:asyncio.wait(FIRST_COMPLETED): returns with a non-empty set of finished tasks, the rest pending")
+            return Coro(run_wait_first, label="wait")
 
         def run_wait():
             done, pending = [], []
